@@ -350,6 +350,29 @@ def addClassEdit (h : Heap) (holder c : Nat) : Edit :=
       writes := [(holder, { oh with fields := oh.fields ++ [.own c] }), (c, { oc with fields := setPar oc.fields holder })] }
   | _, _ => { allocs := [], writes := [] }
 
+/-- `c.parent = None` -/
+def dropPar (fs : List Field) : List Field :=
+  fs.filter fun f => match f with | .par _ => false | _ => true
+
+/-- `holder.remove_class(c)`: `del holder.classes[c.name]; c.parent = None` — the entry is found by the
+    *name* of the argument.  `registered`: the argument is the object held by `holder` (then that object
+    loses its parent); otherwise the argument is some copy of it (`find_class` copies by default) and
+    the object that was held is only dropped from `holder`. -/
+def removeClassEdit (h : Heap) (holder : Nat) (n : String) (registered : Bool) : Edit :=
+  match h[holder]? with
+  | none => { allocs := [], writes := [] }
+  | some oh =>
+    { allocs := []
+      writes := (holder, { oh with fields := oh.fields.filter fun f => match f with
+                              | .own i => !(isClassNamed h n i)
+                              | _ => true }) ::
+        (if registered then
+          ((ownIds oh).filter (isClassNamed h n)).filterMap fun c =>
+            match h[c]? with
+            | some oc => some (c, { oc with fields := dropPar oc.fields })
+            | none => none
+         else []) }
+
 /-- a variant with move semantics: the class is first popped, by name, from the `classes` of the
     parent it still has (for a copy made by `find_class`/`deepcopy` that is the original's parent) -/
 def addClassMoveEdit (h : Heap) (holder c : Nat) : Edit :=
